@@ -1,4 +1,7 @@
+use anyhow::anyhow;
 use bytes::{Buf, BufMut, Bytes, BytesMut};
+use selium_std::errors::{CodecError, Result};
+use std::mem::size_of;
 
 pub fn encode_message_batch(batch: Vec<Bytes>) -> Bytes {
     let mut bytes = BytesMut::new();
@@ -14,15 +17,33 @@ pub fn encode_message_batch(batch: Vec<Bytes>) -> Bytes {
     bytes.into()
 }
 
-pub fn decode_message_batch(mut bytes: Bytes) -> Vec<Bytes> {
-    let num_of_messages = bytes.get_u64();
-    let mut messages = Vec::with_capacity(num_of_messages as usize);
+pub fn decode_message_batch(mut bytes: Bytes) -> Result<Vec<Bytes>> {
+    let num_of_messages = read_u64(&mut bytes)?;
+    // The count comes from the wire, so don't use it to size the allocation
+    let mut messages = Vec::new();
 
     for _ in 0..num_of_messages {
-        let message_len = bytes.get_u64();
+        let message_len = read_u64(&mut bytes)?;
+
+        if message_len > bytes.remaining() as u64 {
+            return Err(malformed_batch());
+        }
+
         let message_bytes = bytes.split_to(message_len as usize);
         messages.push(message_bytes);
     }
 
-    messages
+    Ok(messages)
+}
+
+fn read_u64(bytes: &mut Bytes) -> Result<u64> {
+    if bytes.remaining() < size_of::<u64>() {
+        return Err(malformed_batch());
+    }
+
+    Ok(bytes.get_u64())
+}
+
+fn malformed_batch() -> selium_std::errors::SeliumError {
+    CodecError::DecodeFailure(anyhow!("Malformed message batch")).into()
 }
